@@ -233,6 +233,13 @@ pub fn resolve_contents(sc: &Scenario, corpus: &mut Corpus) -> Vec<RContent> {
                 }
             }
             Content::Hex(b) => RContent { bytes: Arc::new(b.clone()), expect: Expect::Unknown },
+            Content::PingPong { n, d } => {
+                let z = crate::spec::pingpong_spec(*n, *d);
+                match (z.bytes(), z.expected()) {
+                    (Some(b), Ok(tz)) => RContent { bytes: Arc::new(b), expect: Expect::Zone(Arc::new(tz)) },
+                    _ => RContent { bytes: Arc::new(Vec::new()), expect: Expect::Reject("unwritable".into()) },
+                }
+            }
             Content::Fill { len, byte } => RContent { bytes: Arc::new(vec![*byte; (*len).min(8 << 20)]), expect: Expect::Unknown },
         };
         out.push(rc);
